@@ -281,3 +281,28 @@ def _gb_parse_ok(pre, post):
 
 
 fcontract('GreedyBytes', '_parse', [Case('ok', 'return', lambda pre: t.TRUE, ensures=_gb_parse_ok, rkind=rk_dyn, modifies=['stream'])])
+
+
+# ================================================================================================ Renamed (C18: the member name enters the path)
+def _renamed_path(pre):
+    name = pre.self.fields['name']
+    from pyvc import prelude as _p
+    _p.declare_fun('tostr', [t.VAL], t.STR)
+    return t.str_concat(pre['path'].t, S(' -> '), t.app('tostr', t.STR, name.t))
+
+
+def _renamed_raise(pre, post):
+    e = post.exc
+    if isinstance(e.path, VStr) and e.path.t is not None:
+        goal = t.str_prefixof(_renamed_path(pre), e.path.t)
+    else:
+        goal = t.FALSE
+    return [('error-path-includes-this-member-name', goal, ('C18',))]
+
+
+for _m in ('_parse', '_build', '_sizeof'):
+    fcontract('Renamed', _m, [
+        Case('returns', 'return', lambda pre: t.TRUE, rkind=rk_dyn, modifies=['stream'] if _m != '_sizeof' else []),
+        Case('raises', 'raise', lambda pre: t.TRUE, ensures=_renamed_raise, modifies=['stream'] if _m != '_sizeof' else []),
+    ], tags=('C18',), sub_seq=False, models=('bytesio',))
+    contract_ = None
